@@ -317,7 +317,7 @@ def run(run):
                                 "the expected value and the 7-sigma acceptance band are operators of NoiseLaw.tla evaluated by TLC. Exact clauses (verbatim noise, same-seed scaling, "
                                 "utility identities on a centi-dB grid) are decided without statistics.")
     run.extra["samples_per_configuration"] = N
-    if not mism and not run.only:
+    if not run.only and not [m for m in mism if m[1] <= 40]:        # the self-test slice (the first 40 events) was accepted
         def corrupt(ev2):
             i = next(i for i, e in enumerate(ev2) if e["ev"] == "Noise" and e["expected_cdb"] != 99999)
             ev2[i]["noise_cdb"] += 300
